@@ -560,5 +560,13 @@ theorem c02_shape_Overlay_Process :
      "o.handleRequestTree", "o.handleSendTree", "o.handleSendTreeMarshal",
      "o.handleRequestRoster", "o.handleSendRoster", "network.MessageType", "o.TransmitMsg"] := rfl
 
+theorem c02_shape_TreeNodeInstance_Tree :
+    Shapes.treenode_TreeNodeInstance_Tree =
+   ["treeStorage.Get", "if:(tree==nil)", "return:tree"] := rfl
+
+theorem c02_shape_Tree_Search :
+    Shapes.tree_Tree_Search =
+   ["if:tns.ID.Equal(tn)", "Root.Visit", "return:ret"] := rfl
+
 
 end C02
